@@ -503,6 +503,9 @@ def check_homogeneous(ck, F, S):
     import c12 as _c12
     from symex import Sym as _Sym
     _c12.positions_rule(ck, F, _Sym(F, opaque=contracts.default_opaque(F), max_depth=64), prefix='C07')
+    # `the scope lists every declaration`: what size() / elements() report is the store of declarations, however it was filled
+    import c09 as _c09
+    _c09.scope_size_rule(ck, F, 'C07')
     R = ck.rule('C07.singleton-sets', 'parameters, enumerators, bases and exception parameters are their own master, their '
                 'decl-set is the singleton of themselves, and their overload set selects them exactly for their own type', floor=4)
     cases = [
